@@ -501,6 +501,23 @@ def run_saw(desc, c, e, add, rng):
     seq = [s for s in inner_seq if avail[s].any()]
     if order != seq[:len(order)]:
         add("samples-not-in-the-inner-strategy's-order", "pairs %s -> samples %s, inner strategy returned %s (A_perf: %s)" % (pairs, order, inner_seq, aperf))
+    if aperf == "mat":
+        # documented: within a sample the annotators are taken in the order of its row of A_perf (row i belongs to the i-th
+        # given candidate, or to sample i without candidates)
+        contracts.count("C20.saw-annotator-preference-checker")
+        P = np.asarray(kw["A_perf"], float)
+        for s in order:
+            r = s if cand_idx is None else int(np.flatnonzero(cand_idx == s)[0])
+            av = np.flatnonzero(avail[s])
+            vals = P[r, av]
+            if len(set(vals.tolist())) != len(vals):
+                continue
+            got = sorted(a for s_, a in pairs if s_ == s)
+            want = sorted(av[np.argsort(-vals)][: len(got)].tolist())
+            if got != want:
+                add("annotators-of-a-sample-not-chosen-by-its-A_perf-row", "sample %d (row %d of A_perf %s, available %s): got annotators %s, the best are %s; candidates %s" % (
+                    s, r, P[r].tolist(), av.tolist(), got, want, None if cand_idx is None else cand_idx.tolist()))
+                break
     return {"nontrivial": len(order) >= 2}
 
 
